@@ -217,3 +217,8 @@ Definition timeout_ok (returned : bool) (err : N) (elapsed_ns bound_ns : Z) (lat
 Definition neterr_ok (temporary : bool) (k calls requests : nat) (body_ok : bool) (err : N) : bool :=
   if temporary then Nat.eqb calls (S k) && Nat.eqb requests 1 && body_ok && (err =? 0)%N
   else Nat.eqb calls 1 && Nat.eqb requests 0 && negb (err =? 0)%N.
+
+(** The retry budget belongs to one export, not to the client: an exporter created longer ago than its
+    MaxElapsedTime still retries, twice in a row (each export: retry-able reply, then success). *)
+Definition aged_ok (attempts1 : nat) (err1 : N) (attempts2 : nat) (err2 : N) : bool :=
+  Nat.eqb attempts1 2 && (err1 =? 0)%N && Nat.eqb attempts2 2 && (err2 =? 0)%N.
